@@ -22,10 +22,29 @@ def make_hashable(x):
     return x
 
 
+def share_equal_indices(inputs, output, size_dict):
+    """Make every occurrence of an index refer to a single object. Since
+    ``pickle`` memoizes by identity, two *equal* contractions would otherwise
+    be serialized (and thus hashed) differently depending on whether or not
+    their equal indices happen to be the same python objects.
+    """
+    shared = {}
+
+    def get(ix):
+        return shared.setdefault(ix, ix)
+
+    inputs = tuple(tuple(map(get, term)) for term in inputs)
+    output = tuple(map(get, output))
+    size_dict = {get(ix): d for ix, d in size_dict.items()}
+    return inputs, output, size_dict
+
+
 def hash_contraction_a(inputs, output, size_dict):
     if not isinstance(next(iter(size_dict.values()), 1), int):
         # hashing e.g. numpy int won't match!
         size_dict = {k: int(v) for k, v in size_dict.items()}
+
+    inputs, output, size_dict = share_equal_indices(inputs, output, size_dict)
 
     return hashlib.sha1(
         pickle.dumps(
@@ -39,6 +58,8 @@ def hash_contraction_a(inputs, output, size_dict):
 
 
 def hash_contraction_b(inputs, output, size_dict):
+    inputs, output, size_dict = share_equal_indices(inputs, output, size_dict)
+
     # label each index as the sorted tuple of nodes it is incident to
     edges = collections.defaultdict(list)
     for ix in output:
